@@ -350,7 +350,9 @@ def main(tier, seed):
     from .. import idioms
     progs += idioms.programs(rng)
     vns = ["default", "noinline", "compact", "pushpop"]
-    cases = compile_rot([((name, p), [vns[i % 4], vns[(i + 1) % 4]] if tier == "quick" else vns) for i, (name, p) in enumerate(progs)])
+    allv = vns + ["tail", "tailinline", "pushpopinline"]
+    cases = compile_rot([((name, p), allv if name.startswith(("idiom/", "corpus/")) else ([vns[i % 4], vns[(i + 1) % 4]] if tier == "quick" else vns))
+                         for i, (name, p) in enumerate(progs)])
     oks = [c for c in cases if c.ok]
     kinds = {"compiled": len(oks), "out_of_registers": 0, "other_errors": 0, "interference_problems": 0}
     for c in cases:
